@@ -1006,6 +1006,92 @@ func stressMetrics(res *hx.Result, out *recorder, seed int64) {
 	res.Case(map[string]interface{}{"kind": "metrics-free", "seed": seed}, true)
 }
 
+// ---------------------------------------------------------------- free-running: AllMetrics/CheckAll against writers
+// The checker of a monitor without peerset function (crdt mode) walks Store.AllMetrics() while metrics arrive and
+// peers are removed: 2 goroutines CheckAll/AllMetrics, 3 goroutines Add / RemovePeer / RemovePeerMetrics.
+// Watchdog: no call of any goroutine returned for 15 s (each call takes microseconds) = the store is stuck.
+func stressAllMetrics(res *hx.Result, out *recorder, seed int64, iters int) {
+	mark("metrics-free:allmetrics")
+	names := hx.NewNames(seed)
+	peers := []peer.ID{names.Peer("q1"), names.Peer("q2"), names.Peer("q3"), names.Peer("q4")}
+	store := metrics.NewStore()
+	checker := metrics.NewChecker(context.Background(), store, 3.0)
+	for _, p := range peers {
+		for _, n := range []string{"ping", "freespace"} {
+			m := &api.Metric{Name: n, Peer: p, Value: "1", Valid: true}
+			m.SetTTL(time.Hour)
+			store.Add(m)
+		}
+	}
+	x := &rec{Kind: "metrics", Scenario: "allmetrics"}
+	var xmu sync.Mutex
+	var progress int64
+	var wg sync.WaitGroup
+	worker := func(w int, f func(rng *rand.Rand)) {
+		wg.Add(1)
+		go func() {
+			defer wg.Done()
+			defer func() {
+				if r := recover(); r != nil {
+					xmu.Lock()
+					x.Panic = fmt.Sprint(r)
+					xmu.Unlock()
+				}
+			}()
+			rng := rand.New(rand.NewSource(seed*10 + int64(w)))
+			for i := 0; i < iters; i++ {
+				f(rng)
+				atomic.AddInt64(&progress, 1)
+			}
+		}()
+	}
+	stop := make(chan struct{})
+	go func() {
+		for {
+			select {
+			case <-checker.Alerts():
+			case <-stop:
+				return
+			}
+		}
+	}()
+	worker(0, func(*rand.Rand) { checker.CheckAll() })
+	worker(1, func(*rand.Rand) { store.AllMetrics() })
+	worker(2, func(rng *rand.Rand) {
+		m := &api.Metric{Name: []string{"ping", "freespace"}[rng.Intn(2)], Peer: peers[rng.Intn(len(peers))], Value: "1", Valid: true}
+		m.SetTTL(time.Duration(rng.Intn(3)) * time.Hour) // some expired at once
+		store.Add(m)
+	})
+	worker(3, func(rng *rand.Rand) { store.RemovePeer(peers[rng.Intn(len(peers))]) })
+	worker(4, func(rng *rand.Rand) { store.RemovePeerMetrics(peers[rng.Intn(len(peers))], "ping") })
+	fin := make(chan struct{})
+	go func() { wg.Wait(); close(fin) }()
+	last, lastAt := int64(-1), time.Now()
+loop:
+	for {
+		select {
+		case <-fin:
+			x.Result = "done"
+			break loop
+		case <-time.After(100 * time.Millisecond):
+			if p := atomic.LoadInt64(&progress); p != last {
+				last, lastAt = p, time.Now()
+			} else if time.Since(lastAt) > 15*time.Second {
+				xmu.Lock()
+				x.Panic = fmt.Sprintf("deadlock: no CheckAll / AllMetrics / Add / RemovePeer / RemovePeerMetrics call on the metrics store returned for 15s (%d of %d calls done)", p, 5*iters)
+				xmu.Unlock()
+				break loop
+			}
+		}
+	}
+	close(stop)
+	xmu.Lock()
+	out.put(x)
+	xmu.Unlock()
+	res.Count(5 * iters)
+	res.Case(map[string]interface{}{"kind": "metrics-free-allmetrics", "seed": seed}, true)
+}
+
 func TestDriver(t *testing.T) {
 	rig.Quiet()
 	res := hx.NewResult()
@@ -1053,6 +1139,7 @@ func TestDriver(t *testing.T) {
 		stressMetrics(res, out, seed*19+int64(i))
 		accrualChecks(res, out, seed*23+int64(i), 8)
 		accrualChecks(res, out, seed*23+int64(i), 30)
+		stressAllMetrics(res, out, seed*29+int64(i), 20000)
 	}
 	res.Set("records", out.n)
 	mark("done")
